@@ -345,10 +345,18 @@ PROPS = {
         theorems=["C11_no_lost_ring_wakeup", "C11_wake_is_on_its_way", "C11_awoken_bit_makes_next_poll_prompt",
                   "C11_pending_message_has_a_submitter", "C11_owed_poller_is_resumable_or_a_waker_is_running",
                   "C11_interrupted_enter_makes_poll_return", "C11_poll_return_clears_owed",
-                  "C11_eintr_retry_loses_wakeup_refuted", "C11_has_waiting_bit_loses_wakeup_refuted"],
-        rule="one splitmix64 stream per case: one poller thread calling Ring::poll(None) 1..3 times and 1..3 waker "
+                  "C11_eintr_retry_loses_wakeup_refuted", "C11_has_waiting_bit_loses_wakeup_refuted",
+                  "C11_expired_timeout_means_nothing_owed", "C11_awoken_poll_does_not_wait",
+                  "C11_kept_timeout_loses_wakeup_refuted", "C11_refused_enter_loses_wakeup_refuted"],
+        rule="one splitmix64 stream per case: one poller thread calling Ring::poll 1..3 times, each call with None or "
+             "with Some(3600 s) (1/2 each, drawn last from the case's stream; the hour is never waited for: when the "
+             "poller is blocked with a timeout and the scheduler finds nobody left who could run, the wait ends with "
+             "ETIME, the driver's block handler records the marker 996 in the execution log and the case gets the "
+             "event Timeout), and 1..3 waker "
              "threads each calling SubmissionQueue::wake 1..2 times, on a ring of the simulated kernel in one of the "
-             "three ring modes (default, single issuer, kernel-thread flag) with random 32-bit start counters and a "
+             "three ring modes (default, single issuer, kernel-thread flag; a single-issuer ring, half of them with "
+             "DEFER_TASKRUN, is built disabled and enabled by the poller thread, which thereby is its issuer: the "
+             "simulated kernel refuses any other thread's io_uring_enter with EEXIST) with random 32-bit start counters and a "
              "submission queue of 2 or 8 entries holding 0, cap-1 or cap unrelated queued operations (never "
              "completing) at the start, so that wake() finds the queue (nearly) full and has to enter and retry, "
              "run one at a time under the baton scheduler with a random schedule (preemption probability 5..50% at "
@@ -372,7 +380,11 @@ PROPS = {
              "the executed interleaving (incl. the scheduler's report that the blocked poller can "
              "never be resumed) is the case and the model replays it step by step; the oracle (independent of the "
              "model) follows 'a wake() was called since the last poll returned' along the log and fails when the "
-             "scheduler reports the poller blocked for ever while that holds; tags count the interrupted enters per "
+             "scheduler reports the poller blocked for ever while that holds, or reports that the finite timeout "
+             "of the blocked poll expired while that holds (the poll slept its whole timeout through the wake-up); "
+             "tags count the polls with a finite timeout, the timeouts that expired, whether a wake-up was owed "
+             "then, timed polls that blocked and were woken, the kind of single-issuer ring and the enters refused "
+             "with EEXIST (0 on the unchanged code); tags count the interrupted enters per "
              "kind, ring mode and whether a wake-up was owed at that moment, and the cases with parked futures per "
              "ring mode and number, how many of them were woken during the race, who took the second lock of "
              "wake_blocked_futures (poller / a waker / both / nobody), whether the poller blocked and whether an "
@@ -388,7 +400,26 @@ PROPS = {
                      "themselves are not verified",
                      "schedules the scheduler can produce: a blocked poller is resumed only when something arrived "
                      "or a signal interrupts it, 'stuck' is reported only when both queues are empty and every waker "
-                     "has finished, a signal may interrupt the poller's enter at any time (ev_ok s PI = True)",
+                     "has finished, a signal may interrupt the poller's enter at any time (ev_ok s PI = True); the "
+                     "finite timeout of a blocked poll expires (event Timeout) under the precondition of 'stuck' "
+                     "only: durations are not modelled, a timeout that expires while somebody could still wake the "
+                     "poller is not an event of the model (by the API-level reading it would not be a lost wake-up "
+                     "either: the poll returns)",
+                     "per-poll timeouts: None or Some(finite), any list; Some(ZERO) given by the caller is not a "
+                     "separate case (it never blocks: it behaves like an awoken poll); an awoken poll enters with a "
+                     "zero timeout whatever the caller passed (C11_awoken_poll_does_not_wait)",
+                     "single-issuer rule as the simulated kernel has it (Linux io_uring.c: submitter_task is the "
+                     "creating thread, or with R_DISABLED the enabling thread; io_uring_enter on a ring without "
+                     "SQPOLL and io_uring_register on the ring's descriptor fail with EEXIST for any other thread; "
+                     "REGISTER_SEND_MSG_RING with descriptor -1 is not a call on the ring); in the model the "
+                     "single-issuer waker never enters (synchronous message), the refused enter exists only in the "
+                     "variant step_nsi",
+                     "C11_kept_timeout_loses_wakeup_refuted and C11_refused_enter_loses_wakeup_refuted are about "
+                     "variants of the step function (seeded changes C11-j: Some(t) kept when awoken; C11-i: a waker "
+                     "that takes add + enter on a single-issuer ring and is refused), not about the code as it is; in "
+                     "the latter the lost state has the wake message published and never submitted, so the report "
+                     "'stuck' is justified by 'every waker finished and no kernel thread' instead of 'both queues "
+                     "empty' (stated in the lemma)",
                      "an interrupted enter: at the call the model follows the simulator's injection (the submission "
                      "work is done, then EINTR whatever is in the completion queue: more than Linux does, which fails "
                      "with EINTR only when it would have waited and nothing was submitted); while blocked it follows "
@@ -410,10 +441,13 @@ PROPS = {
                      "C11_has_waiting_bit_loses_wakeup_refuted is about a variant of the step function (seeded "
                      "change C11-h: a third bit HAS_WAITING in the state word), not about the code as it is"],
         trusted=["simulated kernel harness/src/simk.rs (blocking enter, MSG_RING, SQPOLL consumption, fail_next_enter, "
-                 "BlockAction::Eintr)",
+                 "BlockAction::Eintr, BlockAction::Etime, the single-issuer rule: issuer = creating or enabling thread, "
+                 "EEXIST for any other thread's enter/register)",
                  "baton scheduler harness/src/sched.rs (replays are exact: the model reports the scheduling point it "
                  "expects at every step and it is diffed; blocked/stuck markers; point 997 = blocked with a signal "
-                 "due)",
+                 "due; marker 996 = the timeout of a blocked wait expired because nobody is left to run, 999 = the "
+                 "same for a wait without a timeout: the model expects 996 only for a timed wait and 999 only for an "
+                 "untimed one)",
                  "the driver's attribution of a consumed fail_next_enter to the poller segment before the poll's "
                  "second POLLING_STATE point (a wrong attribution shows as a replay mismatch)",
                  "the driver's parking of futures before the race (a future that does not park is reported as an "
